@@ -47,6 +47,14 @@ CLAIMS = {
              'model queries, for all dtypes incl. unsigned, exhaustive small vectors plus random long ones.',
         note='Assumed: the 1-D NumPy theory (bincount as presence counts, nonzero, isin, mask selection, scatter/gather with wrap-around); integer arrays are mathematical integers (A-NOOVF).',
         assumptions=['A-LIB 1-D NumPy array theory (pyvc/npth.py)', 'A-NOOVF']),
+    'C08': dict(level='proof',
+        text='PROVED for all pairs (spike_templates, spike_clusters) of equal length >= 1 with non-negative ids: TemplateModel.get_merge_map returns one list per id 0..max, each list strictly increasing (no template twice), '
+             'containing exactly the templates at least one spike of that id came from (both directions), and nan_idx lists exactly the ids whose list is empty (nested loop invariants over the int-keyed dict of lists). '
+             'BOUNDED only: the waveform half of the statement (_merge_templates weighted mean on the dominant template channels, single-template shortcut, clusters == templates identity) over exhaustive small '
+             'curation histories plus random ones against a direct reference.',
+        note='Assumed: the 1-D NumPy theory (np.unique, np.where/nonzero of a comparison, gather, np.max); an int-keyed dict built by {k: [] for k in range(N)} is modelled as a list of N lists (keys 0..N-1 in insertion order, '
+             'which is what .items() iterates); template ids are mathematical integers (A-NOOVF).',
+        assumptions=['A-LIB 1-D NumPy array theory (pyvc/npth.py)', 'A-NOOVF', 'A-DICT: {k: [] for k in range(N)} behaves as a list of N lists iterated in key order']),
     'C10': dict(level='proof', technique=FRAME_TECH, note=FRAME_NOTE,
         text='PROVED for all inputs/histories (frame contracts): save_spike_clusters writes exactly the spike-cluster file that loading reads; save_metadata writes only cluster_<name>.tsv; the subset export writes '
              'only its three files; close writes nothing; reload writes only the two load-time files. BOUNDED only: that a reload shows the last saved values (TSV codec, metadata dictionaries, subset-store waveforms '
